@@ -42,6 +42,15 @@ def main():
         bad = {p: r for p, r in res.items() if r != 0}
         rows.append((name, tests.strip(), "all 17 checks exit 0" if not bad else "NON-ZERO: %s" % bad, "; ".join(notes)[:300]))
         print(rows[-1], flush=True)
+    # rows of refactors not evaluated in this run are kept from the existing table
+    path = os.path.join(VERIF, "benign", "RESULTS.md")
+    have = {r[0]: r for r in rows}
+    if os.path.exists(path):
+        for line in open(path):
+            c = [x.strip() for x in line.strip().strip("|").split(" | ")]
+            if len(c) >= 3 and c[0] not in have and os.path.isdir(os.path.join(VERIF, "benign", c[0])):
+                have[c[0]] = tuple((c + [""])[:4])
+    rows = [have[n] for n in sorted(have)]
     with open(os.path.join(VERIF, "benign", "RESULTS.md"), "w") as f:
         f.write("# Behaviour-preserving refactors vs the checks (quick tier): no alarm expected\n\n| refactor | repo tests | checks | notes |\n|---|---|---|---|\n")
         for r in rows:
